@@ -33,6 +33,23 @@ DU      == TDUnion("kind", <<"A", "B">>)
 E2      == TEnum(<<"a", "b">>)
 Node    == Def("Node", TStruct(<<F("v", S0), FOpt("next", TRef("Node"))>>))
 
+\* bare keywords / builtins of each target language (controls) and the same words behind the prefixes the formatters strip;
+\* the two sets are never in one struct: `class` and `_class` would collide after stripping, which is another matter
+PyWords    == <<"class", "from", "import", "def", "lambda", "None", "pass", "global", "with", "yield", "is", "in", "not", "print", "id", "list",
+                "type", "len", "self">>
+PyPrefixed == <<"_class", "$from", "__import", "_def", "$lambda", "_None", "__pass", "$global", "_with", "$yield", "_is", "$in", "_not", "_print",
+                "_list", "$type", "_self">>
+GoWords    == <<"type", "func", "range", "map", "go", "select", "interface", "chan", "defer", "package", "var", "string", "error", "nil", "len">>
+GoPrefixed == <<"_type", "$func", "__range", "_map", "$go", "_select", "$interface", "_chan", "$defer", "_package", "$var", "_string", "_nil">>
+JavaWords  == <<"class", "public", "static", "new", "int", "default", "package", "final", "void", "enum", "interface", "abstract", "this", "null",
+                "Object", "String">>
+JavaPrefixed == <<"_class", "$public", "__static", "_new", "$int", "_default", "$package", "_final", "$void", "_enum", "$abstract", "_this", "$null">>
+PhpTsWords == <<"function", "echo", "array", "namespace", "abstract", "clone", "var", "delete", "export", "typeof", "enum", "default", "await",
+                "constructor", "prototype", "this">>
+PhpTsPrefixed == <<"_function", "$echo", "__array", "_namespace", "$clone", "_var", "$delete", "_export", "$typeof", "_default", "$await",
+                   "_constructor", "$this">>
+OddWords   == <<"1st", "2", "a-b", "c.d", "e f", "é", "snake_case", "kebab-case", "UPPER", "x1", "_", "with space and-dash">>
+
 Shapes == <<
   \* ---- scalars of every width, bounds
   Sh("scalars", {"scalar"}, <<RF(<<
@@ -108,6 +125,34 @@ Shapes == <<
       Def("Tree", TStruct(<<F("v", I0), FOpt("kids", TArr(TRef("Tree"))), FOpt("idx", TMap(TRef("Tree")))>>))>>),
   Sh("alias", {"ref", "alias"}, <<RF(<<F("a", TRef("Alias")), F("s", TRef("StrAlias")), F("l", TRef("ListAlias")), F("m", TRef("MapAlias"))>>),
       Child, Def("Alias", TRef("Child")), Def("StrAlias", S0), Def("ListAlias", TArr(S0)), Def("MapAlias", TMap(I0))>>),
+  \* ---- references to NAMED collections (a definition that is an array / a map), optional and nullable
+  Sh("named-collections", {"ref", "alias", "named-collection", "array", "map"}, <<RF(<<
+      F("l", TRef("Names")), F("m", TRef("Counts")), F("lc", TRef("Kids")), F("mc", TRef("KidsByName"))>>),
+      Child, Def("Names", TArr(S0)), Def("Counts", TMap(I0)), Def("Kids", TArr(TRef("Child"))), Def("KidsByName", TMap(TRef("Child")))>>),
+  Sh("named-collections-optional", {"ref", "alias", "named-collection", "array", "map", "optional"}, <<RF(<<
+      FOpt("l", TRef("Names")), FOpt("m", TRef("Counts")), FOpt("lc", TRef("Kids")), FOpt("mc", TRef("KidsByName")),
+      FOpt("ll", TRef("Matrix")), FOpt("mm", TRef("Nested"))>>),
+      Child, Def("Names", TArr(S0)), Def("Counts", TMap(I0)), Def("Kids", TArr(TRef("Child"))), Def("KidsByName", TMap(TRef("Child"))),
+      Def("Matrix", TArr(TArr(I0))), Def("Nested", TMap(TMap(S0)))>>),
+  Sh("named-collections-nullable", {"ref", "alias", "named-collection", "array", "map", "nullable"}, <<RF(<<
+      FNull("l", TRef("Names")), FNull("m", TRef("Counts")), FOptNull("lc", TRef("Kids")), FOptNull("mc", TRef("KidsByName"))>>),
+      Child, Def("Names", TArr(S0)), Def("Counts", TMap(I0)), Def("Kids", TArr(TRef("Child"))), Def("KidsByName", TMap(TRef("Child")))>>),
+  Sh("named-collections-in-collections", {"ref", "alias", "named-collection", "array", "map"}, <<RF(<<
+      F("al", TArr(TRef("Names"))), F("ml", TMap(TRef("Names"))), FOpt("am", TArr(TRef("Counts")))>>),
+      Def("Names", TArr(S0)), Def("Counts", TMap(I0))>>),
+  \* ---- identifier stress: property names that are keywords / builtins of a target language, bare and behind the
+  \* prefixes the formatters strip (`_`, `$`), leading digits, dashes, spaces, case collisions
+  Sh("identifiers-python", {"identifiers", "identifiers-keyword"}, <<RF([i \in DOMAIN PyWords |-> FOpt(PyWords[i], S0)])>>),
+  Sh("identifiers-python-prefixed", {"identifiers", "identifiers-prefixed"}, <<RF([i \in DOMAIN PyPrefixed |-> FOpt(PyPrefixed[i], S0)])>>),
+  Sh("identifiers-go", {"identifiers", "identifiers-keyword"}, <<RF([i \in DOMAIN GoWords |-> FOpt(GoWords[i], S0)])>>),
+  Sh("identifiers-go-prefixed", {"identifiers", "identifiers-prefixed"}, <<RF([i \in DOMAIN GoPrefixed |-> FOpt(GoPrefixed[i], S0)])>>),
+  Sh("identifiers-java", {"identifiers", "identifiers-keyword"}, <<RF([i \in DOMAIN JavaWords |-> FOpt(JavaWords[i], S0)])>>),
+  Sh("identifiers-java-prefixed", {"identifiers", "identifiers-prefixed"}, <<RF([i \in DOMAIN JavaPrefixed |-> FOpt(JavaPrefixed[i], S0)])>>),
+  Sh("identifiers-php-ts", {"identifiers", "identifiers-keyword"}, <<RF([i \in DOMAIN PhpTsWords |-> FOpt(PhpTsWords[i], S0)])>>),
+  Sh("identifiers-php-ts-prefixed", {"identifiers", "identifiers-prefixed"}, <<RF([i \in DOMAIN PhpTsPrefixed |-> FOpt(PhpTsPrefixed[i], S0)])>>),
+  Sh("identifiers-odd", {"identifiers", "identifiers-odd"}, <<RF([i \in DOMAIN OddWords |-> FOpt(OddWords[i], S0)])>>),
+  Sh("identifiers-required-typed", {"identifiers", "identifiers-prefixed"}, <<RF(<<F("_class", I0), F("$from", TBool), F("__import", TArr(S0)), F("def", TRef("Child")),
+      F("type", TMap(S0)), F("1st", S0), F("a-b", I0), FDef("_lambda", S0, JStr("x")), FOpt("$ref", E2)>>), Child>>),
   \* ---- date-time, any
   Sh("time", {"time"}, <<RF(<<F("t", TTime), FOpt("ot", TTime), F("at", TArr(TTime)), F("mt", TMap(TTime))>>)>>),
   Sh("any", {"any"}, <<RF(<<F("an", TAny), FOpt("oan", TAny), F("aan", TArr(TAny)), F("man", TMap(TAny))>>)>>),
